@@ -17,7 +17,7 @@ from .common import Check, lean_driver, quiet_naunet, silenced, tier_and_seed
 
 quiet_naunet()
 
-C14_THEOREMS = ["Naunet.C14.removeAt_neg", "Naunet.C14.removeAt_nonneg", "Naunet.C14.appendDepletion_inv", "Naunet.C14.appendDesorption_inv", "Naunet.C14.appendDesorption_held",
+C14_THEOREMS = ["Naunet.C14.speciesSet_nodup", "Naunet.C14.unionSet_nodup", "Naunet.C14.run_cacheNodup", "Naunet.C14.removeAt_neg", "Naunet.C14.removeAt_nonneg", "Naunet.C14.appendDepletion_inv", "Naunet.C14.appendDesorption_inv", "Naunet.C14.appendDesorption_held",
                 "Naunet.C14.appendDepletion_held", "Naunet.C14.desorption_exact", "Naunet.C14.depletion_exact", "Naunet.C14.extend_inv",
                 "Naunet.C14.run_inv", "Naunet.C14.reachable_inv", "Naunet.C14.step_inv", "Naunet.C14.species_eq",
                 "Naunet.C14.source_sink_eq", "Naunet.C14.setAllowed_eq_construct", "Naunet.C14.foldl_add_held"]
